@@ -4,3 +4,83 @@ use crate::verif_nd::{harness, nd_cover};
 
 pub(crate) fn lookup_ll_code(c: u8) -> (u32, u8) { super::lookup_ll_code(c) }
 pub(crate) fn lookup_ml_code(c: u8) -> (u32, u8) { super::lookup_ml_code(c) }
+
+// ------------------------------------------------------------------------------------------------ C01: FSE-coded sequences
+// decode_sequences (the real interleaved three-state decoder) on a symbolic bit stream, with the three tables injected
+// (mode Repeat = "use the tables already in the scratch"), against a transcription of RFC 8878 3.1.1.4: initial states
+// are read in the order literal lengths, offsets, match lengths; per sequence the extra bits are read in the order
+// offset, match length, literal length; then (except after the last sequence) the states are updated in the order
+// literal lengths, match lengths, offsets.
+struct Bits { v: u32, pos: i32 } // pos = number of unread bits below the padding marker
+impl Bits {
+    fn get(&mut self, n: u32) -> u32 {
+        // bits past the start of the stream read as zero (the real reader does the same and reports it as negative remaining)
+        let mut out = 0u32;
+        let mut k = 0;
+        while k < n {
+            self.pos -= 1;
+            let bit = if self.pos >= 0 { (self.v >> self.pos) & 1 } else { 0 };
+            out = (out << 1) | bit;
+            k += 1;
+        }
+        out
+    }
+}
+fn ll_of(code: u8) -> (u32, u32) { if code < 16 { (code as u32, 0) } else { (16 + 2 * (code as u32 - 16), 1) } } // codes 0..=19 only
+fn ml_of(code: u8) -> (u32, u32) { if code < 32 { (code as u32 + 3, 0) } else { (35 + 2 * (code as u32 - 32), 1) } } // codes 0..=35 only
+
+fn seqdec_two_sequences<const NSEQ: usize>() {
+    // symbols of the two states of each table
+    const LL: [u8; 2] = [2, 16];   // literal length 2 (no extra bits) / 16..17 (1 extra bit)
+    const OF: [u8; 2] = [1, 3];    // offset value 2..3 (1 extra bit) / 8..15 (3 extra bits)
+    const ML: [u8; 2] = [0, 33];   // match length 3 / 37..38 (1 extra bit)
+    let mut scratch = FSEScratch::new();
+    crate::fse::verif_kani::inject_two_state_table(&mut scratch.literal_lengths, LL[0], LL[1]);
+    crate::fse::verif_kani::inject_two_state_table(&mut scratch.offsets, OF[0], OF[1]);
+    crate::fse::verif_kani::inject_two_state_table(&mut scratch.match_lengths, ML[0], ML[1]);
+    let hdr_bytes = [NSEQ as u8, 0xFCu8]; // count, modes: Repeat for all three tables
+    let mut section = SequencesHeader::new();
+    match section.parse_from_header(&hdr_bytes) { Ok(_) => {}, Err(e) => { core::mem::forget(e); panic!("header"); } }
+    let mut stream: [u8; 3] = nd::any();
+    // stream length 1..=3 bytes so that exact consumption is possible for every combination of states (8..16 bits are
+    // needed for two sequences); a last byte without the padding marker is a different error (ExtraPadding), decided elsewhere
+    let len: usize = nd::any();
+    nd::assume(len >= 1 && len <= 3);
+    nd::assume(stream[len - 1] != 0);
+    if len < 3 { stream[2] = 0; }
+    if len < 2 { stream[1] = 0; }
+    let mut target: Vec<Sequence> = Vec::with_capacity(4);
+    let r = decode_sequences(&section, &stream[..len], &mut scratch, &mut target);
+    // ---- model
+    let v = (stream[0] as u32) | (stream[1] as u32) << 8 | (stream[2] as u32) << 16;
+    let marker = 31 - v.leading_zeros() as i32; // position of the padding marker
+    let mut b = Bits { v, pos: marker };
+    let mut ll_s = b.get(1) as usize; let mut of_s = b.get(1) as usize; let mut ml_s = b.get(1) as usize;
+    let mut want = [(0u32, 0u32, 0u32); NSEQ];
+    let mut i = 0;
+    while i < NSEQ {
+        let (llv, llb) = ll_of(LL[ll_s]); let (mlv, mlb) = ml_of(ML[ml_s]); let ofc = OF[of_s] as u32;
+        let ofx = b.get(ofc); let mlx = b.get(mlb); let llx = b.get(llb);
+        want[i] = (llv + llx, mlv + mlx, (1u32 << ofc) + ofx);
+        if i + 1 < NSEQ { ll_s = b.get(1) as usize; ml_s = b.get(1) as usize; of_s = b.get(1) as usize; }
+        i += 1;
+    }
+    match r {
+        Ok(()) => {
+            assert!(b.pos == 0, "sequence section accepted although the bit stream was not consumed exactly");
+            assert!(target.len() == NSEQ);
+            let j: usize = nd::any(); nd::assume(j < NSEQ);
+            assert!(target[j].ll == want[j].0 && target[j].ml == want[j].1 && target[j].of == want[j].2, "decoded sequence differs from the RFC decoding order");
+            nd_cover!(NSEQ < 2 || (want[0].0 >= 16 && want[1].2 >= 8), "extra bits of several kinds in use");
+            nd_cover!(NSEQ < 2 || (want[1].0 < 16 && want[1].1 > 3), "second sequence: literal-length state 0 with match-length state 1");
+            nd_cover!(NSEQ < 2 || (want[1].0 >= 16 && want[1].1 == 3), "second sequence: literal-length state 1 with match-length state 0");
+        }
+        Err(e) => { core::mem::forget(e); assert!(b.pos != 0, "sequence section refused although the bit stream is consumed exactly"); }
+    }
+    nd_cover!(b.pos < 0, "stream too short");
+    nd_cover!(b.pos > 0, "left-over bits");
+    core::mem::forget(target); core::mem::forget(scratch);
+}
+harness! { fn seqdec_repeat_tables_one_sequence() { seqdec_two_sequences::<1>(); } }
+harness! { fn seqdec_repeat_tables_two_sequences() { seqdec_two_sequences::<2>(); } }
+harness! { fn seqdec_repeat_tables_three_sequences() { seqdec_two_sequences::<3>(); } }
